@@ -86,8 +86,8 @@ func semBody(js, tmpl string) (string, bool) {
 	return rest[:k], true
 }
 
-func semRun(encSrc, file, tmpl, dataSx string) string {
-	reg, err := jsCompileCached(encSrc, "(globals)")
+func semRun(encSrc, file, tmpl, dataSx, ijSx, globalsSx string) string {
+	reg, err := jsCompileCached(encSrc, globalsSx)
 	if err != nil {
 		return "COMPILE-ERR " + hxs(err.Error())
 	}
@@ -104,6 +104,14 @@ func semRun(encSrc, file, tmpl, dataSx string) string {
 		return "BADDATA"
 	}
 	dataJSON := jsonOfValue(valueOfSx(n))
+	ijJSON := "{}"
+	if ijSx != "-" {
+		m, ok := parseSx(ijSx)
+		if !ok {
+			return "BADDATA"
+		}
+		ijJSON = jsonOfValue(valueOfSx(m))
+	}
 	base, err := jsBaseVM()
 	if err != nil {
 		return "NOVM " + hxs(err.Error())
@@ -115,7 +123,7 @@ func semRun(encSrc, file, tmpl, dataSx string) string {
 			return fmt.Errorf("load: %v", e)
 		}
 		var e error
-		out, e = jsCall(vm, tmpl, dataJSON, "{}")
+		out, e = jsCall(vm, tmpl, dataJSON, ijJSON)
 		return e
 	})
 	if jsErr != nil {
@@ -158,6 +166,18 @@ func semDiffers(c *Case, want, impl string) bool {
 			semStats["with a content param, semantics:"+wf[0]]++
 		}
 	}
+	if strings.Contains(c.Req, "24696a") { // "$ij"
+		semStats["with $ij, semantics:"+wf[0]]++
+	}
+	if strings.Contains(c.Req, "(global ") {
+		semStats["with a global, semantics:"+wf[0]]++
+	}
+	if strings.Contains(c.Req, "7b63737320") || strings.Contains(c.Req, "7b64656275676765727d") { // "{css ", "{debugger}"
+		semStats["with {css} / {debugger}, semantics:"+wf[0]]++
+	}
+	if strings.Contains(c.Req, "7b706c7572616c20") { // "{plural "
+		semStats["with {plural}, semantics:"+wf[0]]++
+	}
 	if strings.Contains(c.Req, "7b6d736720") { // "{msg "
 		semStats["with {msg}, semantics:"+wf[0]]++
 	}
@@ -194,12 +214,15 @@ func init() {
 	implOps["jssem"] = func(f []string) string {
 		file, _ := unhx(f[2])
 		tmpl, _ := unhx(f[3])
-		return semRun(f[0], string(file), string(tmpl), f[4])
+		if len(f) >= 8 {
+			return semRun(f[0], string(file), string(tmpl), f[4], f[6], f[7])
+		}
+		return semRun(f[0], string(file), string(tmpl), f[4], "(m)", "(globals)")
 	}
 	register(&Prop{
 		ID: "C04sem",
-		Rule: "validation of the trusted JavaScript semantics: generated files ({msg} without a bundle — text, HTML tags, print and call placeholders — among the commands) — an entry template and, in half of them, one or two templates it calls ({call} with value and content params, no data / data=\"all\" / data=\"$m\", callees calling callees, calls inside loops and content blocks; the semantics runs the callee's translated body as the callee oracle) — of the command fragment of Props/C04d (raw text with quotes, backslashes and HTML-special bytes; prints of int / string / bool expressions with no directive, |id, |noAutoescape, |escapeHtml under the three autoescape settings; let (value and content blocks) with fresh and SHADOWING names; if/elseif/else; foreach with and without ifempty over list parameters and map fields, for over range(…) with one to three arguments (positive literal step), switch on ints / strings with labels of both types, loop variables shadowing parameters, index / isFirst / isLast of the enclosing loops' variables; " +
-			"expressions: + - * % on small ints, string concatenation, comparisons, same-type equality, and/or/not, ?:, elvis on a nullable, .k / ?.k / [i] accesses, length, isNonnull, floor/ceiling/round/min/max) x 3 data sets (one of them with missing map fields, null and undefined values, empty lists: TypeErrors and ifempty branches); " +
+		Rule: "validation of the trusted JavaScript semantics: generated files ({msg} without a bundle — text, HTML tags, print and call placeholders, {plural} —, {css}, {debugger} among the commands) — an entry template and, in half of them, one or two templates it calls ({call} with value and content params, no data / data=\"all\" / data=\"$m\", callees calling callees, calls inside loops and content blocks; the semantics runs the callee's translated body as the callee oracle) — of the command fragment of Props/C04d (raw text with quotes, backslashes and HTML-special bytes; prints of int / string / bool expressions with no directive, |id, |noAutoescape, |escapeHtml under the three autoescape settings; let (value and content blocks) with fresh and SHADOWING names; if/elseif/else; foreach with and without ifempty over list parameters and map fields, for / foreach over range(…) with one to three arguments (positive literal step) with and without ifempty, switch on ints / strings with labels of both types, loop variables shadowing parameters, index / isFirst / isLast of the enclosing loops' variables; " +
+			"expressions: $ij references (the injected data, also inside callees) and scalar compile-time globals, + - * % on small ints, string concatenation, comparisons, same-type equality, and/or/not, ?:, elvis on a nullable, .k / ?.k / [i] accesses, length, isNonnull, floor/ceiling/round/min/max) x 3 data sets (one of them with missing map fields, null and undefined values, empty lists: TypeErrors and ifempty branches); " +
 			"soyjs.Write's statement text and its run in otto versus renderStmts(toCmds) and its run under Spec/JsStmt.execStmts in the driver, from the same data: text byte for byte, and the completion (output string / TypeError) wherever the semantics is not `unspec`; plus hand-written cases; non-trivial = the engine returns a non-empty string or throws",
 		Gen:         genC04sem,
 		Timeout:     60 * time.Second,
@@ -351,7 +374,13 @@ func (g *semGen) mapRef(path string) string {
 	return "$m" + path
 }
 
+// the compile-time globals of the generated files (scalars: the generator writes their literals)
+var semGlobals = data.Map{"G_I": data.Int(42), "G_NEG": data.Int(-7), "G_S": data.String("g<'\"&\\"), "G_T": data.Bool(true), "G_NULL": data.Null{}}
+
 func (g *semGen) intE(d int) string {
+	if g.r.Intn(14) == 0 {
+		return g.r.Pick([]string{"$ij.a", "$ij.a", "$ij.q.z", "G_I", "G_NEG", "$ij?.a"})
+	}
 	if len(g.loopVars) > 0 && g.r.Intn(6) == 0 {
 		return "index($" + g.loopVars[g.r.Intn(len(g.loopVars))] + ")"
 	}
@@ -409,6 +438,9 @@ func (g *semGen) intE(d int) string {
 }
 
 func (g *semGen) strE(d int) string {
+	if g.r.Intn(14) == 0 {
+		return g.r.Pick([]string{"$ij.s", "$ij?.s", "G_S", "$ij.q?.s"})
+	}
 	if d <= 0 || g.r.Intn(3) == 0 {
 		switch g.r.Intn(5) {
 		case 0, 1:
@@ -436,6 +468,9 @@ func (g *semGen) strE(d int) string {
 }
 
 func (g *semGen) boolE(d int) string {
+	if g.r.Intn(20) == 0 {
+		return g.r.Pick([]string{"G_T", "isNonnull(G_NULL)", "isNonnull($ij.u)", "($ij.a > G_I)"})
+	}
 	if len(g.loopVars) > 0 && g.r.Intn(4) == 0 {
 		return g.r.Pick([]string{"isFirst", "isLast"}) + "($" + g.loopVars[g.r.Intn(len(g.loopVars))] + ")"
 	}
@@ -565,9 +600,8 @@ func (g *semGen) call(d int) string {
 
 // {msg}: without a message bundle the generator writes the parts one after the other — raw text, HTML tags and the
 // placeholders (prints, now and then a call)
-func (g *semGen) msg(d int) string {
-	var b strings.Builder
-	b.WriteString("{msg desc=\"" + g.r.Pick([]string{"d", "a b", "x"}) + "\"}")
+// the parts of a message or of a plural case: raw text, HTML tags, print (and call) placeholders
+func (g *semGen) msgParts(b *strings.Builder) {
 	for i, n := 0, 1+g.r.Intn(5); i < n; i++ {
 		switch g.r.Intn(6) {
 		case 0, 1:
@@ -587,6 +621,36 @@ func (g *semGen) msg(d int) string {
 			b.WriteString("{" + g.exprOf(t, 1) + g.r.Pick([]string{"", "", "|id", "|noAutoescape", "|escapeHtml"}) + "}")
 		}
 	}
+}
+
+func (g *semGen) msg(d int) string {
+	var b strings.Builder
+	b.WriteString("{msg desc=\"" + g.r.Pick([]string{"d", "a b", "x"}) + "\"}")
+	if g.r.Intn(3) == 0 {
+		// {plural}: without a bundle a switch on the value — explicit cases, then the default
+		var val string
+		if g.r.Intn(10) == 0 {
+			val = g.strE(0) // no number: JavaScript takes the default, the semantics is silent
+		} else {
+			val = g.intE(1)
+		}
+		b.WriteString("{plural " + val + "}")
+		seen := map[int]bool{}
+		for i, n := 0, g.r.Intn(4); i < n; i++ {
+			v := g.r.Intn(6)
+			if seen[v] {
+				continue
+			}
+			seen[v] = true
+			b.WriteString(fmt.Sprintf("{case %d}", v))
+			g.msgParts(&b)
+		}
+		b.WriteString("{default}")
+		g.msgParts(&b)
+		b.WriteString("{/plural}{/msg}")
+		return b.String()
+	}
+	g.msgParts(&b)
 	b.WriteString("{/msg}")
 	return b.String()
 }
@@ -597,6 +661,18 @@ func (g *semGen) cmd(d int) string {
 	}
 	if g.r.Intn(12) == 0 {
 		return g.msg(d)
+	}
+	if g.r.Intn(25) == 0 {
+		// {css}: the name, or `value + '-' + name`, unescaped; {debugger}: nothing
+		switch g.r.Intn(4) {
+		case 0:
+			return "{css " + g.r.Pick([]string{"foo", "a-b", "Zx0"}) + "}"
+		case 1:
+			return "{css " + g.strE(0) + ", " + g.r.Pick([]string{"foo", "bar-x"}) + "}"
+		case 2:
+			return "{css " + g.intE(1) + ", n}"
+		}
+		return "{debugger}"
 	}
 	k := g.r.Intn(10)
 	if d <= 0 && k >= 6 {
@@ -700,7 +776,12 @@ func (g *semGen) cmd(d int) string {
 		g.loopVars = g.loopVars[:len(g.loopVars)-1]
 		g.loops--
 		g.vars = g.vars[:mark]
-		return "{for $" + name + " in range(" + args + ")}" + body + "{/for}"
+		kw := g.r.Pick([]string{"for", "for", "foreach"})
+		s := "{" + kw + " $" + name + " in range(" + args + ")}" + body
+		if g.r.Intn(3) == 0 {
+			s += "{ifempty}" + g.block(d-1) // 2e1528d: after the loop, `if (index == 0) {…}`
+		}
+		return s + "{/" + kw + "}"
 	default:
 		var list string
 		var et semTy
@@ -819,6 +900,22 @@ func (g *semGen) dataSet(edge bool) data.Map {
 	return d
 }
 
+// the injected data: the fields the generated expressions read; `edge`: some missing
+func (g *semGen) ijSet(edge bool) data.Map {
+	m := data.Map{"a": g.num(), "s": g.str(), "q": data.Map{"z": g.num(), "s": g.str()}, "u": g.num()}
+	if edge {
+		switch g.r.Intn(4) {
+		case 0:
+			delete(m, "q")
+		case 1:
+			m["q"] = data.Null{}
+		case 2:
+			delete(m, "u")
+		}
+	}
+	return m
+}
+
 // hand-written programs: corners the random generator reaches rarely
 var semHands = []struct{ src, data string }{
 	// a `var` inside a branch stays visible; the generator's fresh names keep the outer binding
@@ -844,6 +941,9 @@ var semHands = []struct{ src, data string }{
 	// range loops: empty, one argument, a step that overshoots, a loop variable shadowing the limit
 	{"{namespace sem}\n/** @param n */\n{template .t}\n{for $i in range($n)}{$i}{/for}|{for $i in range(2, $n)}{$i}{/for}|{for $n in range(1, $n, 3)}{$n},{/for}{$n}\n{/template}\n", "(m (6e (i 8)))"},
 	{"{namespace sem}\n/** @param n */\n{template .t}\n{for $i in range($n)}{$i}{/for}|{for $i in range(2, $n)}{$i}{/for}|{for $n in range(1, $n, 3)}{$n},{/for}{$n}\n{/template}\n", "(m (6e (i 0)))"},
+	// the {ifempty} of a range loop: rendered when no iteration happened; the loop variable is out of scope in it
+	{"{namespace sem}\n/** @param n */\n{template .t}\n{foreach $i in range($n)}[{$i}]{ifempty}nothing{/foreach}|{for $i in range(2, $n)}{$i}{ifempty}E{let $i: 'x' /}{$i}{/for}|{foreach $i in range(0, 3, 2)}{$i}{ifempty}no{/foreach}\n{/template}\n", "(m (6e (i 0)))"},
+	{"{namespace sem}\n/** @param n */\n{template .t}\n{foreach $i in range($n)}[{$i}]{ifempty}nothing{/foreach}|{for $i in range(2, $n)}{$i}{ifempty}E{let $i: 'x' /}{$i}{/for}|{foreach $i in range(0, 3, 2)}{$i}{ifempty}no{/foreach}\n{/template}\n", "(m (6e (i 4)))"},
 	// switch: === never coerces; null label; several labels; no default
 	{"{namespace sem}\n/** @param n\n @param s */\n{template .t}\n{switch $n}{case '7'}str{case 7, 8}int{default}d{/switch}{switch $s}{case 7}int{case null}null{case 'a', '7'}s{/switch}|\n{/template}\n", "(m (6e (i 7)) (73 (s 37)))"},
 	{"{namespace sem}\n/** @param n\n @param s */\n{template .t}\n{switch $n}{case '7'}str{case 7, 8}int{default}d{/switch}{switch $s}{case 7}int{case null}null{case 'a', '7'}s{/switch}|\n{/template}\n", "(m (6e (s 37)) (73 (n)))"},
@@ -865,20 +965,31 @@ var semHands = []struct{ src, data string }{
 	{"{namespace sem}\n/** @param li */\n{template .t}\n{foreach $x in $li}{call .c}{param p: $x /}{param i: index($x) /}{param l: $li /}{/call};{/foreach}\n{/template}\n/** @param p\n @param i\n @param l */\n{template .c}\n{$i}:{foreach $y in $l}{$y * $p}{if not isLast($y)},{/if}{/foreach}\n{/template}\n", "(m (6c69 (l (i 2) (i 3))))"},
 	// {msg} without a bundle: text, tags and placeholders in order; a let inside a placeholder's call param does not leak
 	{"{namespace sem}\n/** @param n\n @param s */\n{template .t}\n{msg desc=\"d\"}Hello <b>{$s}</b>, you have {$n + 1} items{$s|noAutoescape}{call .c}{param p}{let $n: 'in' /}{$n}{/param}{/call}.{/msg}{$n}\n{/template}\n/** @param p */\n{template .c}\n[{$p}]\n{/template}\n", "(m (6e (i 4)) (73 (s 3c26)))"},
+	// $ij: the third parameter, passed down by calls; null-safe access; globals are literals
+	{"{namespace sem}\n/** @param n */\n{template .t}\n{$ij.a + $n}|{$ij.s}|{$ij.q.z}|{$ij.q?.z}{$ij?.a}|{call .c /}|{G_I + 1}{G_S}{G_T ? 'y' : 'n'}{isNonnull(G_NULL)}\n{/template}\n/***/\n{template .c}\n<{$ij.a * 2}{$ij.s|noAutoescape}{G_NEG}>\n{/template}\n", "(m (6e (i 5)))"},
+	{"{namespace sem}\n/***/\n{template .t}\nA{$ij.x.y}B\n{/template}\n", "(m)"},
+	// {plural} without a bundle: the explicit case, else the default
+	{"{namespace sem}\n/** @param n\n @param s */\n{template .t}\n{msg desc=\"d\"}{plural $n}{case 0}none{case 4}four <b>{$s}</b>{default}{$n} things{/plural}{/msg}|{msg desc=\"e\"}{plural $n + 1}{case 1}one{default}many{/plural}{/msg}\n{/template}\n", "(m (6e (i 4)) (73 (s 3c26)))"},
+	{"{namespace sem}\n/** @param n\n @param s */\n{template .t}\n{msg desc=\"d\"}{plural $n}{case 0}none{case 4}four <b>{$s}</b>{default}{$n} things{/plural}{/msg}|{msg desc=\"e\"}{plural $n + 1}{case 1}one{default}many{/plural}{/msg}\n{/template}\n", "(m (6e (i 0)) (73 (s 78)))"},
+	// {css}: unescaped name / value-name; {debugger}
+	{"{namespace sem}\n/** @param s\n @param n */\n{template .t}\n<{css foo}|{css $s, bar}|{css $n + 1, z}|{css null, q}{debugger}>\n{/template}\n", "(m (6e (i 4)) (73 (s 3c26)))"},
 	// raw text with every escape class
 	{"{namespace sem}\n{template .t}\na'b\"c\\d<e>&f=g{sp}{nil}{\\n}{\\t}{lb}{rb}é \n{/template}\n", "(m)"},
 }
+
+// the injected data of the hand-written cases
+const semHandIj = "(m (61 (i 3)) (73 (s 696a3c)) (71 (m (7a (i 9)))))"
 
 func genC04sem(g *G) {
 	fuel := "60"
 	for hi, h := range semHands {
 		fs := []srcFile{{"sem.soy", h.src}}
-		reg, err := jsCompile(fs, nil)
+		reg, err := jsCompile(fs, semGlobals)
 		if err != nil {
 			g.Add(Case{Req: req("jssem", encSources(fs), "(files)", hxs("sem.soy"), hxs("sem.t"), h.data, fuel), Class: "hand-rejected", NoModel: true, Note: "hand#" + itoa(hi) + " " + err.Error()})
 			continue
 		}
-		r := req("jssem", encSources(fs), sx("files", sxFile(reg.SoyFiles[0])), hxs("sem.soy"), hxs("sem.t"), h.data, fuel)
+		r := req("jssem", encSources(fs), sx("files", sxFile(reg.SoyFiles[0])), hxs("sem.soy"), hxs("sem.t"), h.data, fuel, semHandIj, sxGlobals(semGlobals))
 		g.Add(Case{Req: r, SpecReq: r, NoModel: true, Class: "hand", Note: "hand#" + itoa(hi) + " " + h.data})
 	}
 	n := g.N(700, 14000)
@@ -887,7 +998,7 @@ func genC04sem(g *G) {
 	for i := 0; i < n; i++ {
 		src := sg.template()
 		fs := []srcFile{{"sem.soy", src}}
-		reg, err := jsCompile(fs, nil)
+		reg, err := jsCompile(fs, semGlobals)
 		if err != nil {
 			rejected++
 			if rejected <= 3 {
@@ -903,7 +1014,7 @@ func genC04sem(g *G) {
 			if k == 2 {
 				class = "edge-data"
 			}
-			r := req("jssem", enc, wire, hxs("sem.soy"), hxs("sem.t"), sxValue(d), fuel)
+			r := req("jssem", enc, wire, hxs("sem.soy"), hxs("sem.t"), sxValue(d), fuel, sxValue(sg.ijSet(k == 2)), sxGlobals(semGlobals))
 			g.Add(Case{Req: r, SpecReq: r, NoModel: true, Class: class, Note: fmt.Sprintf("template#%d seed=%d %s", i, g.Seed, class)})
 		}
 	}
